@@ -28,7 +28,7 @@ ASSUMPTIONS = [
     "no framework of the consumer is the framework of a linked source",
     "when a table is moved between frameworks before the merge its key columns keep an integer type: pandas sources then use the nullable Int64 dtype and no "
     "column is null in every row (otherwise pandas float / Arrow null-typed keys make PyArrow's join raise - type inference of the move, C14)",
-    "requests with three sources are tied by testing only (no Lean model of n-way planning)",
+    "requests with three sources, and requests with two consumers sharing a source, are tied by testing only (no Lean model of n-way planning)",
 ]
 
 FWS = ("pa", "pd", "py")
@@ -62,7 +62,7 @@ def make_source_class(s: Source) -> Any:
     return s.cls
 
 
-def make_consumer_class(sources: List[Source], cfws: Optional[List[str]], tag: str) -> Any:
+def make_consumer_class(sources: List[Source], cfws: Optional[List[str]], tag: str, fname: str = "z") -> Any:
     from mloda.core.abstract_plugins.components.feature import Feature
     from mloda.core.abstract_plugins.components.index.index import Index
 
@@ -76,13 +76,21 @@ def make_consumer_class(sources: List[Source], cfws: Optional[List[str]], tag: s
         F.log_event(ev="rows", tag=tag, kind=type(data).__name__, cols=t["cols"], rows=[[[c, v] for c, v in r] for r in t["rows"]])
 
     def calc(cls: Any, data: Any, features: Any) -> Any:
-        # record what arrives, return a one-row table of the consumer's own framework (nothing downstream looks at it)
+        # record what arrives, then return the table with the consumer's own column appended (done natively: joined tables
+        # may carry the same column name twice)
         before(cls, data, features)
-        fw = F.FW_SHORT[KIND_OF_TYPE.get(type(data).__name__, "pa")]
-        return F.from_columns({"z": [1]}, fw)
+        import pyarrow as pa
+
+        if isinstance(data, pa.Table):
+            return data.append_column(fname, pa.array([1] * data.num_rows, pa.int64()))
+        if isinstance(data, list):
+            return [{**r, fname: 1} for r in data] if data else [{fname: 1}]
+        out = data.copy()
+        out[fname] = 1
+        return out
 
     return F.make_group(
-        F.uniq("Z_"), derived={"z": {"parents": [], "expr": ["const", 1]}}, frameworks={F.FW_SHORT[x] for x in cfws} if cfws else None,
+        F.uniq("Z_"), derived={fname: {"parents": [], "expr": ["const", 1]}}, frameworks={F.FW_SHORT[x] for x in cfws} if cfws else None,
         extra={"input_features": input_features, "calculate_feature": classmethod(calc)},
     )  # fmt: skip
 
@@ -136,28 +144,35 @@ def export_plan(session: Any, sources: List[Source], consumer: Any, links: List[
     return out
 
 
-def run_request(sources: List[Source], links_spec: List[Tuple[Any, ...]], cfws: Optional[List[str]], avail: List[str], mode: str) -> Dict[str, Any]:
-    """links_spec: [(jointype name, index of left source, index of right source)] -> {"plan":…, "got": rows | None, "err": kind | None}"""
+def run_request(sources: List[Source], links_spec: List[Tuple[Any, ...]], cfws: Optional[List[str]], avail: List[str], mode: str,
+                consumers: Optional[List[Tuple[List[int], Optional[List[str]]]]] = None) -> Dict[str, Any]:
+    """links_spec: [(jointype name, index of left source, index of right source[, left keys, right keys])].
+    consumers: [(indices of the sources it depends on, its admissible frameworks)]; default: one consumer of all sources.
+    -> {"plan":…, "got": rows of the (first) consumer | None, "gots": [rows per consumer], "err": kind | None}"""
     from mloda.core.abstract_plugins.components.feature import Feature
     from mloda.core.abstract_plugins.components.index.index import Index
     from mloda.core.abstract_plugins.components.link import JoinSpec, JoinType, Link
     from mloda.core.abstract_plugins.components.parallelization_modes import ParallelizationMode
     from mloda.user import mloda
 
-    tag = F.uniq("run")
     for s in sources:
         make_source_class(s)
-    consumer = make_consumer_class(sources, cfws, tag)
+    if consumers is None:
+        consumers = [(list(range(len(sources))), cfws)]
+    tags = [F.uniq("run") for _ in consumers]
+    ccls = [make_consumer_class([sources[i] for i in idx], cf, tags[n], f"z{n}" if len(consumers) > 1 else "z") for n, (idx, cf) in enumerate(consumers)]
+    consumer = ccls[0]
     links = set()
     for spec in links_spec:
         t, i, j = spec[0], spec[1], spec[2]
         lkeys = spec[3] if len(spec) > 3 else sources[i].keys
         rkeys = spec[4] if len(spec) > 4 else sources[j].keys
         links.add(Link(JoinType[t], JoinSpec(sources[i].cls, Index(tuple(lkeys))), JoinSpec(sources[j].cls, Index(tuple(rkeys)))))
-    res: Dict[str, Any] = {"plan": None, "got": None, "err": None}
+    res: Dict[str, Any] = {"plan": None, "got": None, "gots": None, "err": None}
     log = os.environ[F.LOG_ENV]
+    request = [Feature(f"z{n}") for n in range(len(consumers))] if len(consumers) > 1 else [Feature("z")]
     try:
-        session = mloda.prepare([Feature("z")], compute_frameworks={F.FW_SHORT[x] for x in avail}, links=links, plugin_collector=F.collector({consumer} | {s.cls for s in sources}))
+        session = mloda.prepare(request, compute_frameworks={F.FW_SHORT[x] for x in avail}, links=links, plugin_collector=F.collector(set(ccls) | {s.cls for s in sources}))
     except BaseException as e:  # noqa: BLE001
         res["err"] = classify_error(e)
         return res
@@ -171,20 +186,24 @@ def run_request(sources: List[Source], links_spec: List[Tuple[Any, ...]], cfws: 
     except BaseException as e:  # noqa: BLE001
         res["err"] = classify_error(e)
         return res
-    evs = []
+    evs: Dict[str, List[Any]] = {t: [] for t in tags}
     with open(log) as fh:
         for line in fh:
             try:
                 ev = json.loads(line)
             except Exception:
                 continue
-            if ev.get("ev") == "rows" and ev.get("tag") == tag:
-                evs.append(ev)
-    if len(evs) != 1:
-        res["err"] = f"error:consumer-called-{len(evs)}-times"
-        return res
-    ev = evs[0]
-    res["got"] = {"kind": KIND_OF_TYPE.get(ev["kind"], ev["kind"]), "cols": ev["cols"], "rows": [[(c, v) for c, v in r] for r in ev["rows"]]}
+            if ev.get("ev") == "rows" and ev.get("tag") in evs:
+                evs[ev["tag"]].append(ev)
+    gots = []
+    for t in tags:
+        if len(evs[t]) != 1:
+            res["err"] = f"error:consumer-called-{len(evs[t])}-times"
+            return res
+        ev = evs[t][0]
+        gots.append({"kind": KIND_OF_TYPE.get(ev["kind"], ev["kind"]), "cols": ev["cols"], "rows": [[(c, v) for c, v in r] for r in ev["rows"]]})
+    res["gots"] = gots
+    res["got"] = gots[0]
     return res
 
 
@@ -324,7 +343,7 @@ def check_two(ctx: Ctx, suite: str, cases: List[Dict[str, Any]]) -> None:
 
 def gen_two(rng: Any, t: Optional[str] = None) -> Dict[str, Any]:
     t = t or rng.choice(M.ALL6)
-    cfg = rng.choices(list(M.KEYCFGS), [5, 2, 2, 1, 1])[0]
+    cfg = rng.choices(list(M.KEYCFGS), [5, 2, 2, 1, 1, 2, 2, 1])[0]
     lk, rk = M.KEYCFGS[cfg]
     lf, rf = rng.choice(FWS), rng.choice(FWS)
     if rng.random() < 0.35:
@@ -387,6 +406,13 @@ def witness_two() -> List[Dict[str, Any]]:
     for t in ("LEFT", "INNER", "RIGHT"):
         for cf in (["pa"], ["pd"]):
             out.append({**d, "t": t, "lf": "pa", "rf": "pd", "cfws": cf, "avail": ["pa", "pd"]})
+    # two-column keys named in a different relative order on each side / the same names paired crosswise
+    for cfg, lk, rk in (("2rev", ["p", "q"], ["s", "r"]), ("2swap", ["k", "k2"], ["k2", "k"])):
+        m = {**base, "keycfg": cfg, "lidx": lk, "ridx": rk, "sl": lk + ["a"], "sr": rk + ["b"], "TL": [[1, 2, 10], [2, 1, 11], [2, 2, 12]], "TR": [[1, 2, 20], [2, 1, 21], [3, 3, 22]]}
+        for t in ("INNER", "LEFT", "OUTER"):
+            for fw in ("pd", "pa", "py"):
+                out.append({**m, "t": t, "lf": fw, "rf": fw, "cfws": [fw], "avail": [fw]})
+            out.append({**m, "t": t, "lf": "pd", "rf": "pa", "cfws": ["pd"], "avail": ["pa", "pd"], "pdmode": "Int64"})
     au = {**base, "sl": ["k", "a", "b"], "sr": ["k", "a", "b"], "TL": [[1, 7, 8], [2, 7, 8]], "TR": [[2, 7, 8], [3, 7, 7]]}
     for t in ("APPEND", "UNION"):
         for lf, rf, cf in (("pd", "pd", ["pd"]), ("py", "py", ["py"]), ("pa", "pa", ["pa"]), ("pd", "pa", ["pd"]), ("pd", "pa", ["pa"]), ("pa", "pd", ["pd"])):
@@ -529,6 +555,106 @@ def check_three(ctx: Ctx, suite: str, cases: List[Dict[str, Any]]) -> None:
             ctx.disagree(suite + "/spec-vs-oracle", case, sorted(exp.elements()), sorted(bag.elements()))
 
 
+# ----------------------------------------------------------------------------------------------------------------
+# two consumers that share one right-hand source ("diamond"): oracle only, every consumer is checked
+# case = {"t", "keycfg": "1same"|"1diff", "fws": [f1, f2, fr], "cons": [[fw..], [fw..]], "tables": [T1, T2, TR]}
+#   L1 --t--> R <--t-- L2 ; consumer 1 depends on (L1, R), consumer 2 on (L2, R); both are requested in one call
+
+
+def diamond_layout(case: Dict[str, Any]) -> Tuple[List[Source], List[Tuple[Any, ...]], List[Tuple[List[int], Optional[List[str]]]]]:
+    f1, f2, fr = case["fws"]
+    lk, rk = (["k"], ["k"]) if case["keycfg"] == "1same" else (["lk"], ["rk"])
+    L1 = Source("L1", f1, lk, lk + ["a"], case["tables"][0], ["a"], "Int64")
+    L2 = Source("L2", f2, lk, lk + ["b"], case["tables"][1], ["b"], "Int64")
+    R = Source("R", fr, rk, rk + ["r"], case["tables"][2], ["r"], "Int64")
+    return [L1, L2, R], [(case["t"], 0, 2), (case["t"], 1, 2)], [([0, 2], case["cons"][0]), ([1, 2], case["cons"][1])]
+
+
+def diamond_class(case: Dict[str, Any]) -> Optional[str]:
+    """shapes in which the unchanged tree already hands a consumer something else than its own join (narrow classes);
+    None = the clean shape: the shared source lives on a framework of its own and each consumer admits its left source's
+    framework"""
+    f1, f2, fr = case["fws"]
+    if fr in (f1, f2):
+        return "shared-source-on-a-left-sources-framework"
+    if f1 not in case["cons"][0] or f2 not in case["cons"][1]:
+        return "shared-source-consumer-not-on-its-left-framework"
+    return None
+
+
+def gen_diamond(rng: Any) -> Dict[str, Any]:
+    t = rng.choice(["INNER", "LEFT", "OUTER"])
+    r = rng.random()
+    if r < 0.45:  # both left sources on one framework, the shared source on another
+        f1 = f2 = rng.choice(FWS)
+        fr = rng.choice([f for f in FWS if f != f1])
+    elif r < 0.75:
+        f1, f2 = rng.sample(FWS, 2)
+        fr = [f for f in FWS if f not in (f1, f2)][0]
+    else:
+        f1, f2, fr = rng.choice(FWS), rng.choice(FWS), rng.choice(FWS)
+    cons = [[f1], [f2]]
+    if rng.random() < 0.15:
+        cons[rng.randrange(2)] = [fr]
+    allf = {f1, f2, fr}
+    dups = "py" not in allf
+    pool = [1, 2, 3, 4, 5]
+
+    def tab(n: int, base: int) -> List[List[Any]]:
+        ks = [rng.choice(pool) for _ in range(n)] if dups else rng.sample(pool, n)
+        return [[k, base + i] for i, k in enumerate(ks)]
+
+    return {"t": t, "keycfg": rng.choice(["1same", "1same", "1diff"]), "fws": [f1, f2, fr], "cons": cons,
+            "tables": [tab(rng.choice([1, 2, 3]), 10), tab(rng.choice([1, 2, 3]), 20), tab(rng.choice([1, 2, 3]), 30)]}  # fmt: skip
+
+
+def witness_diamond() -> List[Dict[str, Any]]:
+    tabs = [[[1, 10], [2, 20], [3, 30]], [[3, 3000], [4, 4000], [5, 5000]], [[2, 200], [3, 300], [4, 400]]]
+    out = []
+    for t in ("INNER", "LEFT"):
+        for f1, f2, fr in (("pd", "pd", "pa"), ("pa", "pa", "pd"), ("pd", "pa", "py"), ("pa", "pa", "py"), ("pd", "pd", "pd"), ("pd", "pa", "pa")):
+            out.append({"t": t, "keycfg": "1same", "fws": [f1, f2, fr], "cons": [[f1], [f2]], "tables": tabs})
+    return out
+
+
+def check_diamond(ctx: Ctx, suite: str, cases: List[Dict[str, Any]]) -> None:
+    for case in cases:
+        srcs, links, consumers = diamond_layout(case)
+        avail = sorted(set(case["fws"]) | set(case["cons"][0]) | set(case["cons"][1]))
+        res = run_request(srcs, links, None, avail, "sync", consumers=consumers)
+        exps = []
+        for n in (0, 1):
+            L, R = srcs[n], srcs[2]
+            exps.append(M.oracle(case["t"], L.keys, R.keys, L.cols, R.cols, L.rows(), R.rows()))
+        cls0 = diamond_class(case)
+        ctx.case(suite, case, all(sum(e["rows"].values()) > 0 for e in exps), jointype_d=case["t"], shape_d=cls0 or "clean", fws_d="-".join(case["fws"]), outcome_d=(res["err"] or "rows").split(":")[0])
+        whats: List[str] = []
+        shown: Any = res["err"]
+        if res["err"]:
+            whats.append(f"two consumers sharing a source: the request fails with {res['err']}")
+        else:
+            shown = [{"kind": g["kind"], "cols": g["cols"], "rows": M.exact_bag(g["rows"])} for g in res["gots"]]
+            for n, g in enumerate(res["gots"]):
+                own = f"z{n}"
+                rows = [[(c, v) for c, v in r if c != own] for r in g["rows"]]  # the consumer's own output column is not an input
+                cols = [c for c in g["cols"] if c != own]
+                schema, bag = M.tag_rows(g["kind"], [], cols, rows)
+                if g["kind"] not in case["cons"][n]:
+                    whats.append(f"consumer {n} is executed on {g['kind']}, its rule allows {case['cons'][n]}")
+                elif bag != exps[n]["rows"]:
+                    whats.append(f"consumer {n} (of L{n + 1} and R, {case['t']}) received rows that are not its join: missing {list((exps[n]['rows'] - bag).elements())[:3]} "
+                                 f"unexpected {list((bag - exps[n]['rows']).elements())[:3]}")  # fmt: skip
+                elif g["kind"] in ("pd", "pa") and schema != exps[n]["schema"]:
+                    whats.append(f"consumer {n} received columns {sorted(schema)}, expected {sorted(exps[n]['schema'])}")
+        if whats:
+            cls = cls0
+            if cls is None and res["err"] == "fw:pydict-empty-table" and "py" in case["fws"] and any(sum(e["rows"].values()) == 0 for e in exps):
+                cls = "pydict-framework-empty-table"
+            if cls is None and case["keycfg"] == "1diff" and case["t"] == "OUTER" and "pa" in case["fws"][:2]:
+                cls = "merge-engine/pyarrow-single-key-different-names-right-outer"
+            ctx.violation(suite, case, "; ".join(whats), shown, [sorted(e["rows"].elements()) for e in exps], finding_class=cls)
+
+
 def witness_three() -> List[Dict[str, Any]]:
     """O9: sources A, B on Pandas, C on PyArrow, inner links A-B, B-C, consumer on PyArrow (and the single-framework controls)"""
     tabs = [[[1, 10], [2, 20], [3, 30]], [[2, 5], [3, 6], [4, 7]], [[3, 8], [4, 9], [1, 7]]]
@@ -560,7 +686,9 @@ def run(ctx: Ctx) -> None:
             check_two(ctx, "two-sources", cases[i : i + 1000])
         # O9 is not deterministic between preparations: repeat the witness a few times
         check_three(ctx, "three-witness", witness_three() * 3)
-        check_three(ctx, "three-sources", [gen_three(ctx.rng) for _ in range(ctx.budget(500, 3000))])
+        check_three(ctx, "three-sources", [gen_three(ctx.rng) for _ in range(ctx.budget(400, 3000))])
+        check_diamond(ctx, "shared-source-witness", witness_diamond())
+        check_diamond(ctx, "shared-source", [gen_diamond(ctx.rng) for _ in range(ctx.budget(300, 3000))])
     finally:
         if old is None:
             os.environ.pop(F.LOG_ENV, None)
@@ -578,6 +706,12 @@ def search(ctx: Ctx, broken: List[str]) -> None:
 
 def replay(ctx: Ctx, body: Dict[str, Any]) -> None:
     case = body.get("case")
+    if isinstance(case, dict) and "cons" in case:
+        fd, path = tempfile.mkstemp(prefix="verif-c05-", suffix=".log")
+        os.close(fd)
+        os.environ[F.LOG_ENV] = path
+        check_diamond(ctx, body.get("suite", "replay"), [case])
+        return
     if isinstance(case, dict) and "shape" in case:
         fd, path = tempfile.mkstemp(prefix="verif-c05-", suffix=".log")
         os.close(fd)
